@@ -157,7 +157,8 @@ func writeBoundedReplay(prop string, v boundedViolation, r boundedResult, tmplPa
 		prop, v.Name, tmplPath, r.Pkg, r.Bound, v.Detail)
 	os.WriteFile(filepath.Join(dir, "REPORT.txt"), []byte(rep), 0o644)
 	if src, err := os.ReadFile(tmplPath); err == nil {
-		os.WriteFile(filepath.Join(dir, "replay_test.go"), []byte(strings.Replace(string(src), "TestGovcBounded", "TestGovcReplay", -1)), 0o644)
+		text := strings.Replace(string(src), "/*INPUTS*/", "`{}`", 1)
+		os.WriteFile(filepath.Join(dir, "replay_test.go"), []byte(strings.Replace(text, "TestGovcBounded", "TestGovcReplay", -1)), 0o644)
 		os.WriteFile(filepath.Join(dir, "replay_pkg.txt"), []byte(r.Pkg), 0o644)
 	}
 	return dir
